@@ -510,6 +510,11 @@ func (c *FnCtx) trCall(e *Expr, env *Env) (Term, types.Type) {
 			return app("to_int", a), tInt
 		}
 		return a, tInt
+	case "shift":
+		// shift(m, k)[i] == m[i + k] for integer-valued ghost maps
+		m, mt := arg(0)
+		k, _ := arg(1)
+		return app("arrshift", m, k), mt
 	case "upd":
 		m, mt := arg(0)
 		k, _ := arg(1)
